@@ -29,7 +29,7 @@ def one(sid):
         if rc != 0:
             return sid, {"error": "patch does not apply: " + out[-200:]}
         for c in checks:
-            rc, out = sh(f"./check {c} --tier quick", cwd=ROOT, env=dict(ENV, QIB_REPO=str(wt)), timeout=3600)
+            rc, out = sh(f"./check {c} --tier quick", cwd=ROOT, env=dict(ENV, QIB_REPO=str(wt), **({} if c == checks[0] else {"VERIF_NO_DEEPEN": "1"})), timeout=3600)
             v = [l for l in out.splitlines() if l.startswith("VIOLATION")]
             key = None
             if v:
